@@ -133,7 +133,7 @@ template<class T> void walk_events(Walk const& w) {
         if (g_thorough || !even) { spin_.push_back(spin<T, unsigned long long>(x, y, t, 3)); ks.push_back(3); }
         if (g_thorough || even)  { spinn_.push_back(spin<T, int>(x, yn, t, -2)); ksn.push_back(-2); }
         if (g_thorough || !even) { spinn_.push_back(spin<T, long>(x, yn, t, 1)); ksn.push_back(1); }
-        if (g_thorough || inside) {   // the other precision qualifiers
+        if (inside) {   // the other precision qualifiers
             glm::qua<T, glm::mediump> xm = pl.pt<T, glm::mediump>(0), ym = pl.pt<T, glm::mediump>(m);
             glm::qua<T, glm::lowp> xl = pl.pt<T, glm::lowp>(0), yl = pl.pt<T, glm::lowp>(m);
             glm::qua<T, glm::mediump> sm = glm::slerp(xm, ym, t), mm = glm::mix(xm, ym, t);
@@ -147,7 +147,7 @@ template<class T> void walk_events(Walk const& w) {
         bool squad_dom = w.v[9] > 0 && w.v[9] < (1 << 20) && 4 * sa * w.v[9] <= 3 * w.v[10];
         if (inside && squad_dom) squad_.push_back(glm::squad(x, y, pl.pt<T>(sa), pl.pt<T>(sa + m), t));
         // intermediate(prev, curr, next) with prev = cur_(j-pa), next = cur_(j+pb), (pa, pb) = (1,1) (1,5) (5,1) (2,2)
-        if (j == 0 || j == m || j == -2 * m || (g_thorough && j % 2 == 0)) {
+        if (j == 0 || j == m || j == -2 * m || (g_thorough && j == 2 * m)) {
             static const int pab[4][2] = { {1, 1}, {1, 5}, {5, 1}, {2, 2} };
             for (auto const& ab : pab) inter_.push_back(glm::intermediate(pl.pt<T>(j - ab[0]), pl.pt<T>(j), pl.pt<T>(j + ab[1])));
         }
